@@ -38,6 +38,7 @@ type unionCase struct {
 	P       [2]float64   `json:"p"`
 	Circles [][3]float64 `json:"circles"` // x, y, r
 	Boxes   [][4]float64 `json:"boxes"`   // cx, cy, sx, sy
+	Empty   [][4]float64 `json:"empty"`   // cx, cy, gap, size: Intersect2D of two disjoint boxes at cx-gap and cx+gap (no solid point in its box)
 }
 
 func rat(x float64) *big.Rat { return new(big.Rat).SetFloat64(x) }
@@ -253,6 +254,12 @@ func check(c *Ctx, r *Report) error {
 		for _, bi := range u.Boxes {
 			add(sdf.Box2D(v2.Vec{X: bi[2], Y: bi[3]}, 0), v2.Vec{X: bi[0], Y: bi[1]})
 		}
+		for _, e := range u.Empty {
+			b := sdf.Box2D(v2.Vec{X: e[3], Y: e[3]}, 0)
+			l := sdf.Transform2D(b, sdf.Translate2d(v2.Vec{X: -e[2]}))
+			rr := sdf.Transform2D(b, sdf.Translate2d(v2.Vec{X: e[2]}))
+			add(sdf.Intersect2D(l, rr), v2.Vec{X: e[0], Y: e[1]})
+		}
 		if len(ops) < 2 {
 			return
 		}
@@ -298,6 +305,11 @@ func check(c *Ctx, r *Report) error {
 			} else {
 				u.Boxes = append(u.Boxes, [4]float64{x, y, float64(rng.Range(1, 40)) / 8, float64(rng.Range(1, 40)) / 8})
 			}
+		}
+		if k%6 == 1 {
+			// an operand whose solid is empty (its box is not): pruning must not rely on material in the box
+			sz := float64(rng.Range(4, 24)) / 8
+			u.Empty = append(u.Empty, [4]float64{rng.Dyadic(spread, 4), rng.Dyadic(spread, 4), sz + float64(rng.Range(1, 16))/8, sz})
 		}
 		// query points: random, near an operand boundary, at a box corner, far away
 		switch k % 4 {
